@@ -114,3 +114,14 @@ Theorem C13_any_two_orders_agree : forall (L0 : ledger) (S T : list vertex) (ops
     parked (mrun L0 s1) = [] /\ parked (mrun L0 s2) = [].
 Proof. exact any_two_orders_agree. Qed.
 Print Assumptions C13_any_two_orders_agree.
+
+(* The no-refusal premise, attempt by attempt: it holds whenever every parent that is still a tip is inside the weight
+   window, verified and meets the tip condition of C13_valid_parent_passes (in the ledger as it is when looked at). *)
+Theorem C13_no_refusal_from_tip_conditions : forall L v,
+  (forall p1, find_node (v_left v) (dag L) = Some p1 ->
+     (has_child L (v_left v) = false -> tip_passes_cond L p1) /\
+     forall p2, find_node (v_right v) (dag L) = Some p2 ->
+       has_child (after_parent L (v_left v) p1) (v_right v) = false -> tip_passes_cond (after_parent L (v_left v) p1) p2) ->
+  fine_atb L v = true.
+Proof. exact fine_atb_from_conditions. Qed.
+Print Assumptions C13_no_refusal_from_tip_conditions.
